@@ -197,11 +197,26 @@ def inverse_topology(outer, update, topology, inverse=None, multi_updates=True):
                 for child, child_update in update.items():
                     inner = normalize_path(outer + path + (child,))
                     if isinstance(child_update, dict):
+                        if multi_updates:
+                            # keep every update when another port is
+                            # wired to the same store
+                            inverse = update_in(
+                                inverse,
+                                inner,
+                                lambda current: merge_variable_updates(
+                                    current, child_update))
+                        else:
+                            inverse = update_in(
+                                inverse,
+                                inner,
+                                lambda current: deep_merge(
+                                    current, copy_dicts(child_update)))
+                    elif multi_updates and inner:
                         inverse = update_in(
                             inverse,
-                            inner,
-                            lambda current: deep_merge(
-                                current, copy_dicts(child_update)))
+                            inner[:-1],
+                            lambda current: deep_merge_multi_update(
+                                current, {inner[-1]: child_update}))
                     else:
                         assoc_path(inverse, inner, child_update)
 
